@@ -45,3 +45,53 @@ Proof.
     + rewrite IH. split; intro H; [constructor; auto | now inversion H].
     + split; intro H; [discriminate | inversion H; congruence].
 Qed.
+
+(* ---------- association maps keyed by N (Go maps; delete removes every binding) ---------- *)
+Section AMap.
+  Context {V : Type}.
+  Fixpoint aget (k : N) (m : list (N * V)) : option V :=
+    match m with
+    | [] => None
+    | (q, v) :: r => if N.eqb k q then Some v else aget k r
+    end.
+  Fixpoint aput (k : N) (v : V) (m : list (N * V)) : list (N * V) :=
+    match m with
+    | [] => [(k, v)]
+    | (q, w) :: r => if N.eqb k q then (q, v) :: r else (q, w) :: aput k v r
+    end.
+  Definition adel (k : N) (m : list (N * V)) : list (N * V) :=
+    filter (fun x => negb (N.eqb (fst x) k)) m.
+
+  Lemma aget_aput_eq k v m : aget k (aput k v m) = Some v.
+  Proof.
+    induction m as [|[q w] m IH]; simpl; [now rewrite N.eqb_refl|].
+    destruct (N.eqb_spec k q); simpl; [subst; now rewrite N.eqb_refl|].
+    destruct (N.eqb_spec k q); [contradiction | exact IH].
+  Qed.
+  Lemma aget_aput_neq k k' v m : k <> k' -> aget k' (aput k v m) = aget k' m.
+  Proof.
+    intro Hn. induction m as [|[q w] m IH]; simpl.
+    - destruct (N.eqb_spec k' k); [congruence | reflexivity].
+    - destruct (N.eqb_spec k q); simpl.
+      + subst. destruct (N.eqb_spec k' q); [congruence | reflexivity].
+      + destruct (N.eqb_spec k' q); [reflexivity | exact IH].
+  Qed.
+  Lemma aget_adel_eq k m : aget k (adel k m) = None.
+  Proof.
+    induction m as [|[q w] m IH]; simpl; [reflexivity|].
+    destruct (N.eqb_spec q k); simpl; [exact IH|].
+    destruct (N.eqb_spec k q); [congruence | exact IH].
+  Qed.
+  Lemma aget_adel_neq k k' m : k <> k' -> aget k' (adel k m) = aget k' m.
+  Proof.
+    intro Hn. induction m as [|[q w] m IH]; simpl; [reflexivity|].
+    destruct (N.eqb_spec q k); simpl.
+    - subst. destruct (N.eqb_spec k' k); [congruence | exact IH].
+    - destruct (N.eqb_spec k' q); [reflexivity | exact IH].
+  Qed.
+  Lemma aget_none_nil m : (forall k, aget k m = None) -> m = [].
+  Proof.
+    destruct m as [|[q w] m]; [reflexivity|]. intro H. specialize (H q). simpl in H.
+    now rewrite N.eqb_refl in H.
+  Qed.
+End AMap.
